@@ -233,18 +233,22 @@ def gen_ui(tier):
 def run(run, tier, seed):
     sut.bind(fake_gdb=True)
     sut.ensure_protocols()
-    depth = 4 if tier == 'quick' else 6
+    depth = 4 if tier == 'quick' else 7
     for init in INITIAL_BP:
         res = explore.bfs(make_expand(init), depth, seed=seed, bound={'initial_breakpoint': init, 'depth': depth})
         run.add_part('plugin_bfs:' + init, res)
     res = explore.prod(lambda: gen_ui(tier), eval_ui, seed=seed, bound={'command_list_length': 3 if tier == 'quick' else 4})
     run.add_part('terminal_ui', res)
+    if tier == 'thorough':
+        from .. import gdbreplay
+        gdbreplay.replay_c10(run)
     run.rule = ('BFS over {messages: commit/motion/enter/name x 2 connections while running; %d commands via wl / wl<cmd> and '
                 'continue while halted} from 2 initial breakpoints, merged on (reference breakpoint, selection, halted, quit); '
                 'prompt loop: all command lists to the bound; non-trivial = history with a message and a command'
                 % len(COMMANDS))
     run.bound = {'depth': depth}
-    run.assumptions = ['GDB\'s own breakpoint machinery is trusted: stop() returning True halts the program',
+    run.assumptions = ['stop() returning True halts the program, gdb.execute(continue/quit) do what they say: assumed by the '
+                       'model, confirmed in the thorough tier by playing command schedules in the real GDB 13.1',
                        'commands can be typed only while GDB has the prompt (program halted or not yet started)']
 
 
